@@ -270,7 +270,7 @@ def run(rec, hub, tier, seed, shard, nshards, budget):
     rec.require(MS, 30)
     rec.require(MA, 50)
     rec.exhaustive_spaces["every assignment of an array's dimensions to the x / subplot / line roles (1-3 dims)"] = True
-    n = 140 if tier == "quick" else 800
+    n = 200 if tier == "quick" else 2000
     if shard == 0:
         invalid_dims(rec, hub, case_nprng(seed, "c20.invalid", 0, 0))
     for kk in range(n):
